@@ -31,6 +31,8 @@ def run(prog, tier, res):
     R4 = res.rule("C05.R4", "per-channel guards: channel id at block start equals the i-th sent channel, size == requested samples, zero padding when odd", 2)
     R5 = res.rule("C05.R5", "waveform_at: start = samples_per_channel*index + 2, len = requested_samples, with 2*spc == bytes_per_channel for both parities; None iff channel not sent", 3)
     R6 = res.rule("C05.R6", "accessors return their field; PwbPacket wrappers forward; small id conversions accept exactly the documented values", 30)
+    from .common import check_try_from_wrapper as _ctw
+    _ctw(prog, res, R6, '<alpha_g_detector::padwing::PwbPacket as std::convert::TryFrom<&[u8]>>::try_from', '<alpha_g_detector::padwing::PwbV2Packet as std::convert::TryFrom<&[u8]>>::try_from', 'V2', '[0..L)')
 
     tabs, an, sy = accept.accept_tables(prog, FN, alias=alias)
     body = an.body
